@@ -217,6 +217,17 @@ impl GsWorld {
                 let r = guarded(|| self.client().try_gas_collector());
                 self.fin(r, |v: &Address| format!(" {}", Addr::from_sdk(v).tok()))
             }
+            "gs.probe_extra" => {
+                // every exported function the model does not know, called without any authorisation: whatever it is, it must
+                // not move funds or change roles (the following queries show it)
+                let gs = self.gs.clone().unwrap();
+                let known = ["__constructor", "pay_gas", "add_gas", "collect_fees", "refund", "gas_collector", "owner", "transfer_ownership", "version", "upgrade", "migrate"];
+                let addrs: Vec<Address> = t[1].split(',').filter(|x| !x.is_empty() && *x != "-").map(|x| Addr::parse(x).sdk(&env)).collect();
+                let toks: Vec<(Address, i128)> = t[2].split(',').filter(|x| !x.is_empty() && *x != "-").map(|x| (Addr::parse(x).sdk(&env), 1i128)).collect();
+                let names = probe_unknown_entry_points(&env, &gs, "/repo/contracts/axelar-gas-service/src/contract.rs", &known, &addrs, &toks);
+                let _ = self.events();
+                ("ok".into(), format!("probed={}", names.join(",")))
+            }
             other => panic!("unknown gas-service op {other}"),
         }
     }
